@@ -38,6 +38,12 @@ claimed = {
  "C10": dict(level="other", text="Bounded symbolic execution of Core.Run, VM.Wait/SpawnSync and interpreter.Execute with the cancellation instant as a fork variable over every context poll up to P; goroutines/channels/RWMutex run under the engine's cooperative scheduler; non-polling loops surface as exceeded step bounds and are replayed natively under a wall-clock timeout.",
              note="P = 6 polls quick / 30 thorough; 7 programs; scheduling only at blocking operations (lowest-numbered runnable goroutine first); blocking host builtins (sleep) and wall-clock latency outside. Trusted: go/ssa, gosym (scheduler model), z3.",
              technique="bounded symbolic execution (go/ssa) with symbolic cancellation instant + cooperative scheduler model", design="§2 C10"),
+ "C16": dict(level="other", text="Bounded symbolic execution of call histories on one runtime.VM with symbolic argument values, including the VM's goroutines, result channels and core RWMutex under the engine's cooperative scheduler; blocking forever is the deadlock outcome.",
+             note="Histories of 2 (quick) / 4 (thorough) calls over 5 target functions; default scheduling order only (lowest-numbered runnable goroutine at each blocking operation); concurrent host calls on one VM and debugger channels outside; returned core's internal stack is not inspected (black-box residue check through later calls and the registered-core list). Trusted: go/ssa, gosym scheduler and lock model, z3.",
+             technique="bounded symbolic execution (go/ssa) of call histories + SMT (z3), cooperative scheduler model", design="§2 C16"),
+ "C17": dict(level="other", text="Bounded schedule exploration of the VM's spawn/Wait machinery inside the engine (scheduling decisions at blocking operations are fork variables, at most 2 deviations from the default order) with symbolic spawn arguments, plus a happens-before (vector clock) monitor on every Go map shared between goroutines; a reported race is replayed natively under the race detector.",
+             note="1..2 spawned cores; preemption between synchronisation points is NOT explored (only the happens-before argument speaks to it); the monitor covers Go maps (VM globals, program tables), not slices or struct fields; GOMAXPROCS effects and races inside host code outside. Trusted: go/ssa, gosym scheduler/HB model.",
+             technique="bounded schedule exploration in the symbolic executor + vector-clock happens-before monitor", design="§2 C17"),
  "C05": dict(level="other", text="Bounded symbolic execution of lexer (and parser/analyzer as they are added) with Go run-time panics and step-bound overruns as path outcomes; within the stated bounds no input makes the code panic or fail to make progress.",
              note="Lexer step totality/progress on windows of K runes (quick 3 / thorough 5); Parser.Parse over every sequence of <= L tokens with symbolic kinds and an optional (sticky or consumed) lexer error, L = 3 quick / 5 thorough, step bound 300k as termination obligation (token kind formatting stubbed). Analyzer totality on edited programs: see evidence. 64 KiB / depth-1000 inputs are not executed (outside). Trusted: go/ssa, gosym, z3.",
              technique="bounded symbolic execution (go/ssa) + SMT (z3), panic/bound outcomes", design="§2 C05"),
